@@ -168,6 +168,9 @@ class C17(Check):
         # (a daylight-saving switch, a laptop carried across time zones): timestamps must still denote the same instants
         plan["local_tz"] = rng.choice([None, None, None, "Europe/Berlin", "America/St_Johns", "Asia/Kolkata", "Pacific/Chatham"])
         plan["burst"] = 0
+        # the log path exists already - a complete log of an earlier run, or a truncated one (own stream of draws); the file a run
+        # leaves behind holds this run's records only
+        plan["stale_file"] = rng_for(seed, "C17-stale", index).choice([None, None, None, None, None, None, "log", "log", "junk"])
         if index % 250 == 100:
             # a burst of many short records while the consumer gets no CPU (whatever is queued must still reach the file)
             plan["burst"] = rng.choice([9000, 12000, 20000])
@@ -214,6 +217,13 @@ class C17(Check):
         if plan.get("burst"):
             plan = dict(plan, records=[{"i": i, "text": f"#{i} burst", "level": LEVELS[i % len(LEVELS)], "producer": i % 2, "dt": 0.0} for i in range(plan["burst"])])
         logpath = tmp / "log.json.zst"
+        if plan.get("stale_file"):
+            import zstandard as _z
+
+            old_lines = b"".join(b'<6>{"module": "old", "data": "#%d record of an earlier run", "host": "h", "datetime": "2020-01-01T00:00:0%d.000000+00:00"}\n' % (900000 + k, k) for k in range(3))
+            blob = _z.ZstdCompressor().compress(old_lines)
+            logpath.write_bytes(blob if plan["stale_file"] == "log" else blob[: len(blob) // 2])
+            bump(res["faults"], "log_path_holds_an_earlier_log" if plan["stale_file"] == "log" else "log_path_holds_a_truncated_file")
         file_level = glog.Loglevel.TRACE if plan["trace_level"] else glog.Loglevel.DEBUG
         logger = glog.get_logger("gallia.simcheck.c17")
         model: list[dict[str, Any]] = []
